@@ -209,6 +209,38 @@ def run(ctx):
             if any(c.id in r for c in counts) or any(w.id in r for w in waits):
                 ok = False
         ctx.ob("C15.R3d", inst, ok, lam.loc, "after observing CLOSED the consumer must stop (no further counting or waiting)")
+        # R3f the walk is handed to the snapshot block by block: CLOSED must also end the following invocations
+        flags = L.sticky_flags(lig, llive, ce)
+        nofl = L.flag_edges(lig, flags, False)
+        r = L.reach_across_invocations(lig, [lig.nodes[d] for (_, d) in ce], nofl)
+        again = [n for n in counts + waits if n.id in r]
+        ctx.ob("C15.R3f", inst, bool(ce) and not again, lam.loc,
+               "the slot walk runs once per block of the slot vector: after CLOSED was seen in one block the walk of the next block "
+               "still counts or waits (line %s) - items behind the end marker (stale slots of an earlier cycle) are delivered, or the "
+               "consumer sleeps for ever" % (again[0].line if again else "?"), site="consume@closed-is-sticky")
+        # R3g the range handed out starts at the cursor as it was before the advance and the walk covers [cursor, cursor + num)
+        ok = False
+        rng = [n for n in ig.ev_nodes() if n.id in live and n.ev["e"] == "ctor" and re.search(r"ConsumeRange$", n.ev.get("type", "") or n.ev.get("callee", "") or "")
+               and len(n.ev.get("args", [])) == 3]
+        if rng and fe and adv:
+            def cursor_before(d, at):
+                """d, evaluated at node `at`, is the cursor as it was before the advance: a local copied from the cursor field
+                by a definition the advance cannot precede, or the field itself read where the advance has not happened yet"""
+                d = strip_cast(ig.resolve(d, at.frame))
+                if isinstance(d, dict) and d.get("k") == "l" and "fr" in d:
+                    defs = ig.local_defs(ig.frames[d["fr"]], d["id"])
+                    return len(defs) == 1 and defs[0][1] is not None and strip_cast(defs[0][1]).get("n") == "_next_consume_index" and \
+                        not ig.path_exists(adv[0], defs[0][0], strict=False)
+                return isinstance(d, dict) and d.get("n") == "_next_consume_index" and not ig.path_exists(adv[0], at, strict=False)
+            b0 = ig.rarg(fe[0], 0)
+            e0 = L.linear(ig, fe[0].ev["args"][1], fe[0].frame)
+            bl = L.linear(ig, fe[0].ev["args"][0], fe[0].frame)
+            nump = [k for k in e0[0] if k not in bl[0]]
+            ok = all(cursor_before(r_.ev["args"][1], r_) and strip_cast(ig.resolve(r_.ev["args"][2], r_.frame)).get("n") == "consumed" for r_ in rng) and \
+                cursor_before(fe[0].ev["args"][0], fe[0]) and e0[1] == bl[1] and len(nump) == 1 and all(e0[0].get(k) == v for k, v in bl[0].items())
+        ctx.ob("C15.R3g", inst, ok, fn.loc,
+               "the range handed out must be (cursor before the advance, number counted) and the walk must cover exactly "
+               "[cursor, cursor + num): any other window skips or repeats items", site="consume@range")
         ok = bool(waits) and all(w.id not in lig.reach([lig.entry], removed_edges=L.result_edges(lig, pub, False, llive)) for w in waits)
         ctx.ob("C15.R3e", inst, ok, lam.loc, "the consumer must sleep only on a slot that is neither PUBLISHED nor CLOSED")
 
